@@ -1,0 +1,12 @@
+//go:build verif
+// +build verif
+
+// Contracts for the deductive verifier in /verif (govc). Comment-only: no executable code.
+package util
+
+//@ func (*Meter).MaxInflight props C09
+//@   pure
+//@   ensures [def] result == m.inflightMax
+//@ func (*Meter).CurrentInflight props C09
+//@   pure
+//@   ensures [def] result == m.inflight
